@@ -212,6 +212,12 @@ func build(t *Tree) ast.Node {
 		return &ast.Ident{Name: t.A}
 	case "BasicLit":
 		l := &ast.BasicLit{Kind: LitKind(t.A), Value: t.A}
+		switch l.Kind { // the ast keeps c"..." / py"..." literals without their prefix
+		case token.CSTRING:
+			l.Value = t.A[1:]
+		case token.PYSTRING:
+			l.Value = t.A[2:]
+		}
 		if len(t.C) > 0 {
 			ex := &ast.StringLitEx{}
 			for _, c := range t.C {
